@@ -135,6 +135,15 @@ def run_case(case):
     t = start
     m_start = start          # timers (re)started at creation == start() stamp
     m_last = start
+    delay = int(case.get("delay", 0))
+    if delay:
+        # delayed start: time passes between creation and start(); Exchanger.start() restarts both timers,
+        # the base Exchange keeps running from creation (stated assumption)
+        t = start + delay * STEP
+        stack.stamper.change(t)
+        if clsname == "Exchanger":
+            m_start = t
+            m_last = t
     m_queue = []             # expected contents of stack.txPkts (identity)
     npkt = 0
     latest = pkt(npkt)
@@ -251,10 +260,12 @@ def work(shard, seed, tier):
 
     n = 1200 if tier == "quick" else 8000
     strat = st.tuples(st.sampled_from(["Exchanger", "Exchanger", "Exchange"]), st.sampled_from(TIMEOUTS),
-                      st.sampled_from(REDOS), st.sampled_from(STARTS), _steps_strategy())
+                      st.sampled_from(REDOS), st.sampled_from(STARTS), _steps_strategy(),
+                      st.sampled_from([0, 0, 1, 3, 4, 8, 12, 20]))
 
     def to_case(v):
-        return {"cls": v[0], "timeout": v[1], "redo": v[2], "start": v[3], "steps": [list(STEP_TABLE[c]) for c in v[4]]}
+        return {"cls": v[0], "timeout": v[1], "redo": v[2], "start": v[3], "steps": [list(STEP_TABLE[c]) for c in v[4]],
+                "delay": v[5]}
 
     def execute(v):
         case = to_case(v)
